@@ -83,6 +83,7 @@ type cli struct {
 	ws             *fake.WS
 	expected       []string
 	connected      bool
+	opened         bool // upgraded and registered, first message not sent yet
 	done           bool
 }
 
@@ -96,6 +97,11 @@ type world struct {
 	active    map[uint32]bool
 	listeners map[string]bool
 	n         int
+	// a failed connection has no effect in the model; whether one happened while somebody
+	// was connected or between upgrade and login is still part of the state key, or the
+	// search would merge "V opened" with "V opened, then a stranger failed" and never
+	// look at V's login after the stranger
+	strays map[string]bool
 }
 
 func newWorld() *world {
@@ -148,6 +154,10 @@ func alphabet() []op {
 		{"console", ""}, {"connect", "U"}, {"connect", "V"}, {"disconnect", "U"}, {"disconnect", "V"},
 		{"chat", "U"}, {"ladd", "n1"}, {"lrm", "n1"}, {"register", ""}, {"markdead", "A"}, {"lerr", "n1"}, {"ladd", "n2"}, {"checkin", ""},
 		{"pivot-register", ""},
+		// a login in two steps (the websocket is up and registered, the first message comes
+		// later), and connections that fail before they ever log in: they may disturb nobody,
+		// in particular not a connection that is between its upgrade and its login
+		{"open", "V"}, {"login", "V"}, {"stray-close", ""}, {"stray-unknown-user", ""},
 	}
 }
 
@@ -155,11 +165,19 @@ func (w *world) enabled() []int {
 	var out []int
 	for i, o := range alphabet() {
 		switch o.name {
-		case "connect":
-			if w.clients[o.arg].connected {
+		case "connect", "open":
+			if w.clients[o.arg].connected || w.clients[o.arg].opened {
 				continue
 			}
-		case "disconnect", "chat":
+		case "login":
+			if !w.clients[o.arg].opened {
+				continue
+			}
+		case "disconnect":
+			if !w.clients[o.arg].connected && !w.clients[o.arg].opened {
+				continue
+			}
+		case "chat":
 			if !w.clients[o.arg].connected {
 				continue
 			}
@@ -192,15 +210,26 @@ func (w *world) apply(o op) {
 		tag := fmt.Sprintf("out:%08x:%s", idA, msg)
 		w.retained = append(w.retained, tag)
 		w.bcast(tag, "")
-	case "connect":
+	case "connect", "open", "login":
 		c := w.clients[o.arg]
-		c.ws = fake.NewWS(c.id)
-		c.done = false
-		c.expected = nil
-		t.Clients.Store(c.id, &server.Client{GlobalIP: "10.1.1.1:5", Connection: c.ws.Conn, Packager: packager.NewPackager()})
+		if o.name != "login" {
+			c.ws = fake.NewWS(c.id)
+			c.done = false
+			c.expected = nil
+			t.Clients.Store(c.id, &server.Client{GlobalIP: "10.1.1.1:5", Connection: c.ws.Conn, Packager: packager.NewPackager()})
+		}
+		if o.name == "open" {
+			vsched.Go(func() { t.VerifHandleRequest(c.id); c.done = true })
+			w.s.Block("driver waits for "+c.id, func() bool { return idle(c.ws.Raw) || c.done })
+			c.opened = true
+			break
+		}
 		login, _ := json.Marshal(map[string]any{"Head": map[string]any{"Event": 1, "User": c.user}, "Body": map[string]any{"SubEvent": 3, "Info": map[string]any{"User": c.user, "Password": digest(c.pass)}}})
 		c.ws.SendText(string(login))
-		vsched.Go(func() { t.VerifHandleRequest(c.id); c.done = true })
+		if o.name == "connect" {
+			vsched.Go(func() { t.VerifHandleRequest(c.id); c.done = true })
+		}
+		c.opened = false
 		w.s.Block("driver waits for "+c.id, func() bool { return idle(c.ws.Raw) || c.done })
 		// model
 		c.expected = append(c.expected, "auth-ok")
@@ -214,10 +243,35 @@ func (w *world) apply(o op) {
 				c.expected = append(c.expected, fmt.Sprintf("new:%08x", a))
 			}
 		}
+	case "stray-close", "stray-unknown-user":
+		// a connection of nobody: it goes away before its first message, or names a user the
+		// profile does not know.  Model: no effect on anybody.
+		id := fmt.Sprintf("W%d", w.n)
+		if len(w.authed()) > 0 || w.clients["V"].opened || w.clients["U"].opened {
+			if w.strays == nil {
+				w.strays = map[string]bool{}
+			}
+			w.strays[o.name] = true
+		}
+		ws := fake.NewWS(id)
+		done := false
+		t.Clients.Store(id, &server.Client{GlobalIP: "10.9.9.9:5", Connection: ws.Conn, Packager: packager.NewPackager()})
+		if o.name == "stray-unknown-user" {
+			login, _ := json.Marshal(map[string]any{"Head": map[string]any{"Event": 1, "User": "mallory"}, "Body": map[string]any{"SubEvent": 3, "Info": map[string]any{"User": "mallory", "Password": digest("pw1")}}})
+			ws.SendText(string(login))
+		}
+		vsched.Go(func() { t.VerifHandleRequest(id); done = true })
+		w.s.Block("driver waits for "+id, func() bool { return idle(ws.Raw) || done })
+		ws.Raw.ClosePeer()
+		w.s.Block("driver waits for end of "+id, func() bool { return done })
 	case "disconnect":
 		c := w.clients[o.arg]
 		c.ws.Raw.ClosePeer()
 		w.s.Block("driver waits for end of "+c.id, func() bool { return c.done })
+		if c.opened { // never logged in: nobody is told
+			c.opened = false
+			break
+		}
 		c.connected = false
 		tag := "user-:" + c.user
 		w.retained = append(w.retained, tag)
@@ -326,6 +380,11 @@ func received(c *cli) ([]string, string) {
 func (w *world) check() (string, string) {
 	for _, id := range w.order {
 		c := w.clients[id]
+		if c.ws != nil && c.opened {
+			if got, _ := received(c); len(got) > 0 {
+				return "extra-event", fmt.Sprintf("connection %s has not logged in yet and received %v", id, got)
+			}
+		}
 		if c.ws == nil || !c.connected {
 			continue
 		}
@@ -363,6 +422,11 @@ func (w *world) key() string {
 	for _, c := range w.authed() {
 		cs = append(cs, c.id)
 	}
+	for _, id := range w.order {
+		if w.clients[id].opened {
+			cs = append(cs, id+"(opened)")
+		}
+	}
 	// content markers (m12, c7) are renamed away: the oracle never depends on them
 	var ret []string
 	for _, r := range w.retained {
@@ -371,7 +435,10 @@ func (w *world) key() string {
 		}
 		ret = append(ret, r)
 	}
-	return fmt.Sprintf("%v|%v|%v|%v", ret, cs, w.active, w.listeners)
+	if len(w.authed()) == 0 && !w.clients["V"].opened && !w.clients["U"].opened {
+		w.strays = nil // nobody left whom an earlier stranger could have disturbed
+	}
+	return fmt.Sprintf("%v|%v|%v|%v|%v", ret, cs, w.active, w.listeners, w.strays)
 }
 
 // runHistory replays hist under the scheduler with the default schedule and checks the
